@@ -71,6 +71,19 @@ def gen_cases(rng, tier):
                       'loader': rng.chance(0.3),
                       'names': rng.pick([['one', 'two'], ['one', 'one.active'], ['x.active.y', 'two'], ['one.active', 'one']]),
                       'rows': [{'a': j, 'v': enc(gen_value(rng, 2))} for j in range(rng.randint(0, 4))]})
+    # two chained checkpoints with only the later one removed ('delete2'): the run resumes from the earlier one, nothing
+    # before it executes - a generator source is not even started
+    for h in (['run', 'delete2', 'run'], ['run', 'delete2', 'run', 'run'], ['run', 'delete', 'run', 'delete2', 'run'], ['run', 'run', 'delete2', 'run']):
+        for gen_source in (True, False):
+            cases.append({'kind': 'history', 'history': h, 'reuse': False, 'two': True, 'ups': [], 'loader': False, 'names': ['one', 'two'],
+                          'gen_source': gen_source, 'rows': [{'a': j, 'v': enc(j * 2)} for j in range(3)]})
+    # the same zone name with different offsets (a zone whose offset changed over the years) within one value
+    msk = [datetime.datetime(2012, 6, 1, 12, 0, 0, tzinfo=datetime.timezone(datetime.timedelta(hours=4), 'MSK')),
+           datetime.datetime(2020, 6, 1, 12, 0, 0, tzinfo=datetime.timezone(datetime.timedelta(hours=3), 'MSK')),
+           datetime.datetime(2021, 1, 1, 0, 0, 0, tzinfo=datetime.timezone(datetime.timedelta(hours=5, minutes=30), 'IST')),
+           datetime.datetime(2021, 1, 1, 0, 0, 0, tzinfo=datetime.timezone(datetime.timedelta(hours=2), 'IST'))]
+    cases.append({'kind': 'value', 'value': enc(msk)})
+    cases.append({'kind': 'value', 'value': enc({'a': msk[1], 'b': [msk[0], msk[3]], 'c': msk[2]})})
     return cases
 
 
@@ -122,6 +135,12 @@ def mk_flow(case, d, log):
                 Flow(Src([{'name': 'r', 'fields': [{'name': 'a', 'type': 'integer'}, {'name': 'w', 'type': 'integer'}],
                            'rows': [{'a': j, 'w': 2 * j} for j in range(len(rows))]}]), DF.dump_to_path(pk)).process()
         src = DF.load(os.path.join(pk, 'datapackage.json'))
+    elif case.get('gen_source'):
+        def gen():
+            log.append('src')
+            for r in rows:
+                yield dict(r)
+        src = gen()
     else:
         src = Src([{'name': 'r', 'fields': [{'name': 'a', 'type': 'integer'}, {'name': 'v', 'type': 'any'}], 'rows': rows}])
     n1, n2 = case.get('names', ['one', 'two'])
@@ -177,6 +196,9 @@ def run_impl(case):
         if op == 'delete':
             shutil.rmtree(d, ignore_errors=True)
             continue
+        if op == 'delete2':
+            shutil.rmtree(os.path.join(d, case.get('names', ['one', 'two'])[1]), ignore_errors=True)
+            continue
         del log[:]
         if not case['reuse']:
             flow = mk_flow(case, d, log)
@@ -216,6 +238,9 @@ def oracle(case, out):
         if op == 'delete':
             have1 = have2 = False
             continue
+        if op == 'delete2':
+            have2 = False
+            continue
         r = runs[ri]
         ri += 1
         if 'error' in r:
@@ -231,6 +256,8 @@ def oracle(case, out):
             want = [] if have2 else (['mid'] if have1 else ['up', 'mid'])
         else:
             want = [] if have1 else ['up']
+        if case.get('gen_source') and not have1:
+            want = want + ['src']
         if sorted(r['log']) != sorted(want):
             return 'history %r (reuse=%s): run %d executed %r, expected %r' % (case['history'], case['reuse'], ri, r['log'], want)
         have1 = True
